@@ -24,6 +24,8 @@ Acct ==
   /\ bad' = bad
        \cup Flag(e.unread <= e.rwmax + e.debt, "BufferedBeyondReceiveWindow")
        \cup Flag(e.worst <= e.srw, "StreamBufferedBeyondStreamWindow")
+       \* unread application datagrams never exceed datagram_receive_buffer_size
+       \cup Flag(e.dgrb <= e.dgcap, "DatagramBufferBeyondLimit")
        \cup Flag(\A i \in DOMAIN e.credits :
                    LET c == e.credits[i] IN
                    IF c.k = "md" THEN c.v <= (e.dr - e.unread) + e.rwmax + e.debt
